@@ -252,6 +252,24 @@ class Analysis:
                 return ("I", self.tenv.length(c["args"][0]))
             if c["def"].startswith("typenum::Unsigned::"):
                 return ("I", self.tenv.length(c["args"][0]))
+            # a crate-local, non-generic `const` item of integer / bool type: the value its (exported) body computes
+            if not c.get("args") and c.get("promoted") is None and (is_int_ty(ty) or (ty.get("k") == "prim" and ty["n"] == "bool")):
+                cb = self.db.by_path.get(c["def"]) if self.db is not None else None
+                if cb is not None and cb.get("kind") == "Const":
+                    cache = self.db.__dict__.setdefault("_const_cache", {})
+                    if c["def"] not in cache:
+                        cache[c["def"]] = None  # recursion guard
+                        try:
+                            sub = Analysis(self.db, cb, self.models).run()
+                            vals = {repr(r["val"]): r["val"] for r in sub.returns}
+                            if len(vals) == 1:
+                                v = next(iter(vals.values()))
+                                if (v[0] == "I" and v[1].is_const()) or (v[0] == "B" and v[1][0] == "const"):
+                                    cache[c["def"]] = v
+                        except Exception:
+                            pass
+                    if cache[c["def"]] is not None:
+                        return cache[c["def"]]
             return ("V", "const", c["def"], tuple(tstr(a) for a in c["args"]))
         if k == "cparam":
             return ("I", Poly.atom(("C", c["n"])))
